@@ -13,12 +13,25 @@ def run(ctx):
         if cfg in ctx.unbuilt: continue
         H, impl, model, dis, hits = hc.run_profile(ctx, profiles.C13, k, config=cfg, trigger=trigger, claims=lambda op, a, b: True)
         if hits: break
-    import golden, objcheck
+    import golden, objcheck, demcheck
     golden.check(ctx)
+    demcheck.header_roundtrips(ctx)
     objcheck.wire(ctx, profiles.C13, 30 if ctx.quick() else 300, 'default')
     if 'alt' not in ctx.unbuilt: objcheck.wire(ctx, profiles.C13, 10 if ctx.quick() else 100, 'alt')
     hc.vm_crosscheck(ctx, H, model)
     hc.finish(ctx, f'{n} (+{max(60, n // 5)} in the p-256/ml-kem-768 build) random histories with serialization round trips injected at random steps (the deserialized object replaces the original for the rest of the history), '
               'multi-byte names; every dump checks serialize().len() == length(); golden vectors written by the pinned release are deserialized and used; non-trivial = round trips of at least 3 object kinds')
 
-replay = hc.replay
+def replay(ctx, path):
+    import json
+    rep = json.load(open(path))
+    if 'script' in rep: return hc.replay(ctx, path)
+    # header round-trip findings are deterministic in their inputs: re-run that campaign
+    import demcheck
+    vf.build_harness(ctx)
+    n0 = len(ctx.violations) if hasattr(ctx, 'violations') else 0
+    try: demcheck.header_roundtrips(ctx)
+    except SystemExit: pass
+    bad = [o for o in ctx.obligations if not o['ok']]
+    for o in bad: print(o['name'], '->', o['detail'])
+    return 1 if bad else 0
